@@ -227,7 +227,9 @@ func ToCommandLine(wf WireFormat, resolveIds bool) (rule string, err error) {
 		for idx, syscallID := range r.syscalls {
 			list[idx], ok = syscallTable[int(syscallID)]
 			if !ok {
-				return "", fmt.Errorf("syscall %d not found for arch %s", syscallID, arch)
+				// Build accepts syscalls by number, so a rule can name a
+				// syscall that has no entry in the table. Print the number.
+				list[idx] = strconv.Itoa(int(syscallID))
 			}
 		}
 
